@@ -27,6 +27,7 @@ type tlsClientCfg struct {
 	Curves string   `json:"curves"`
 	Suites string   `json:"suites"`
 	Resume bool     `json:"resume"`
+	SV     string   `json:"sv"`
 }
 type tlsMatcherCfg struct {
 	SNI  []string `json:"sni"`
@@ -150,6 +151,12 @@ func runTLSCase(base caddy.Context, tc tlsCase, idx int) (map[string]any, error)
 	if err != nil {
 		return nil, fmt.Errorf("capture: %v", err)
 	}
+	if tc.C.SV == "absent" {
+		// a client that predates the supported_versions extension: the same hello without extension 43
+		if hello, err = stripExtension(hello, 43); err != nil {
+			return nil, err
+		}
+	}
 	srv, err := serverView(hello)
 	if err != nil {
 		return nil, err
@@ -210,7 +217,7 @@ func runTLSCase(base caddy.Context, tc tlsCase, idx int) (map[string]any, error)
 		}
 	}
 	legacy := int(hello[9])<<8 | int(hello[10])
-	return map[string]any{"id": fmt.Sprintf("tls:%d", idx), "c": map[string]any{"sni": tc.C.SNI, "alpn": nonNilStrs(tc.C.ALPN), "vers": tc.C.Vers, "curves": tc.C.Curves, "suites": tc.C.Suites, "resume": tc.C.Resume},
+	return map[string]any{"id": fmt.Sprintf("tls:%d", idx), "c": map[string]any{"sni": tc.C.SNI, "alpn": nonNilStrs(tc.C.ALPN), "vers": tc.C.Vers, "curves": tc.C.Curves, "suites": tc.C.Suites, "resume": tc.C.Resume, "sv": tc.C.SV},
 		"cfg": map[string]any{"sni": nonNilStrs(tc.Cfg.SNI), "alpn": nonNilStrs(tc.Cfg.ALPN)},
 		"o":   map[string]any{"srv": srv, "par": par, "verdict": verdict, "phName": phName, "phVersion": phVer, "legacy": legacy, "helloLen": len(hello)}}, nil
 }
@@ -294,4 +301,40 @@ func init() {
 		}
 		return writeJSON(*sum, map[string]any{"cases": lw.N, "matched": matched, "errors": errs, "samples": samples})
 	})
+}
+
+// stripExtension removes one extension from a ClientHello record and repairs the three enclosing lengths.
+func stripExtension(rec []byte, typ int) ([]byte, error) {
+	if len(rec) < 9 || rec[0] != 22 || rec[5] != 1 {
+		return nil, fmt.Errorf("not a ClientHello record")
+	}
+	p := 9 + 2 + 32 // record header, handshake header, version, random
+	p += 1 + int(rec[p])
+	p += 2 + (int(rec[p])<<8 | int(rec[p+1]))
+	p += 1 + int(rec[p])
+	extLenAt := p
+	extEnd := p + 2 + (int(rec[p])<<8 | int(rec[p+1]))
+	p += 2
+	out := append([]byte{}, rec[:p]...)
+	removed := 0
+	for p < extEnd {
+		t := int(rec[p])<<8 | int(rec[p+1])
+		l := int(rec[p+2])<<8 | int(rec[p+3])
+		if t == typ {
+			removed += 4 + l
+		} else {
+			out = append(out, rec[p:p+4+l]...)
+		}
+		p += 4 + l
+	}
+	out = append(out, rec[extEnd:]...)
+	if removed == 0 {
+		return nil, fmt.Errorf("extension %d not present", typ)
+	}
+	put16 := func(at, v int) { out[at], out[at+1] = byte(v>>8), byte(v) }
+	put16(extLenAt, (int(rec[extLenAt])<<8|int(rec[extLenAt+1]))-removed)
+	hl := (int(rec[6])<<16 | int(rec[7])<<8 | int(rec[8])) - removed
+	out[6], out[7], out[8] = byte(hl>>16), byte(hl>>8), byte(hl)
+	put16(3, (int(rec[3])<<8|int(rec[4]))-removed)
+	return out, nil
 }
